@@ -39,8 +39,8 @@ DOMAINS = {
     "hypot": "finite non-zero arguments with binary exponents in [-60, 60] (float) / [-500, 500] (double); hypot(x,y,z): [-40, 40] / [-300, 300], reference sqrtl of the long double sum",
     "lerp": "finite a, b (exponents within +-60 / +-500), t in [0, 1]; error against the exactly rounded a + t(b - a) in ulps of max(|a|, |b|)",
 }
-COMPLEX_DOMAIN = "|re|, |im| <= 8: grid with step 1/4, uniform random points, components with log-uniform magnitude 2^-20..8; norm-wise error max(|d re|, |d im|) / ulp(max(|re|, |im|)) of the glibc result"
-FLOORS = {"lgamma": 1.0}
+COMPLEX_DOMAIN = "|re|, |im| <= 8: grid with step 1/4, uniform random points, components with log-uniform magnitude 2^-20..8, points next to zeros of sin/cos, |z|^2 around epsilon, rings around z = 1; norm-wise error max(|d re|, |d im|) / ulp(max(|re|, |im|, abs_floor)) of the glibc result"
+FLOORS = {"lgamma": 1.0, "complex.log": 0.0078125, "complex.log10": 0.0078125}
 
 
 def derive(files, out):
